@@ -518,6 +518,27 @@ func init() {
 					}
 				}
 			}
+			// arity stratum (cheap): arrays around the length of fixed-size destinations, with
+			// trailing / doubled commas (the decoder switches to "skip the rest" at that length)
+			for ai, ad := range arityDocs() {
+				if !c.Mine(295000 + ai) {
+					continue
+				}
+				for ti := range dests {
+					for ci := range cfgs {
+						cfg := &cfgs[ci]
+						if (cfg.int64 || strings.Contains(cfg.name, "UseNumber")) && !typeHasNumberIface(dests[ti].T) {
+							continue
+						}
+						r.Evaluations++
+						r.Count("arity_cases", 1)
+						c.SetCase(fmt.Sprintf(`{"cfg":%q,"type":%q,"doc_hex":"%x"}`, cfg.name, dests[ti].Name, ad))
+						if v := c01judge(cfg, dests[ti], []byte(ad)); v != nil {
+							r.Violate(*v)
+						}
+					}
+				}
+			}
 			// field-lookup stratum first (cheap): wide structs x documents naming each field
 			c01fieldCases(c, func(t gen.TypeCase, doc []byte) bool {
 				for ci := range cfgs {
